@@ -117,6 +117,20 @@ PROPS = {
         "assumptions": ["ASCII input (bytes.ToLower / strings.ToLower are Unicode-aware)",
                         "one A/AAAA record per mDNS packet (Go map iteration order inside a packet is arbitrary); distinct time stamps"],
     },
+    "C19": {
+        "proof_files": ["Proofs/ResolvFacts.v"],
+        "runs": [{"engine": "resolvconf", "args": [], "n_quick": 120, "n_thorough": 6000, "netns": True, "mountns": True}],
+        "trivial_tags": [r"crash0$"],
+        "rule": "generated resolv.conf contents (comments, options, several nameservers incl. tab-separated and indented ones, empty lines, "
+                "missing final newline; regular file or symlink) x sequences of 1-4 activations/deactivations with the real host.SetDNS / "
+                "ResetDNS on a scratch directory bind-mounted over /etc (private mount namespace); half of the operations are killed on entry "
+                "of a chosen mutating system call (unlinkat / openat / k-th write / j-th renameat) with strace signal injection; the three "
+                "paths are compared with the model after every event; spec on the implementation's own state: the original node is intact at "
+                "resolv.conf or the backup, and a completed activation names only the proxy. non-trivial = history with a crash",
+        "assumptions": ["rename(2) is atomic; no power loss (the code never fsyncs)",
+                        "SIGKILL injected on syscall entry prevents that call",
+                        "the NetworkManager side step is outside the property (no /etc/NetworkManager in the scratch tree)"],
+    },
     "C13": {
         "proof_files": WIRE,
         "runs": [
